@@ -169,6 +169,11 @@ def run_case(case):
         if got.shape != want.shape:
             viols.append(cm.viol("%s: shapes %s vs %s" % (what, got.shape, want.shape), qty + "_shape"))
             return
+        if np.isnan(np.asarray(got, dtype=complex)).any() or np.isnan(np.asarray(want, dtype=complex)).any():
+            # +-inf is a legitimate value (potential on a nucleus); NaN is not a value of any of these quantities
+            viols.append(cm.viol("%s: the result contains NaN (original system: %s, moved system: %s)" % (
+                what, bool(np.isnan(np.asarray(want, dtype=complex)).any()), bool(np.isnan(np.asarray(got, dtype=complex)).any())), qty + "_nan"))
+            return
         fin = np.isfinite(want)
         sc = max(float(np.abs(want[fin]).max()) if fin.any() else 0.0, float(floor)) + 1e-300
         e = float(np.abs(got[fin] - want[fin]).max()) / sc if fin.any() else 0.0
